@@ -166,7 +166,8 @@ def main(tier):
     ev.cov['distinct_nontrivial'] = nontriv
     ev.cov['traces_validated_against_impl'] = len(recs)
     ev.cov['rule'] = ('scenes = corridor family (two stacked rectangles, corridor width 0..40, 2..4 connectors crossing, all 2^5 nudging option combinations x 4 nudging distances at random) '
-                      '+ seeded random orthogonal scenes with >= 2 connectors, some with checkpoints; non-trivial = nudging changed a route with a bend')
+                      '+ seeded random orthogonal scenes with >= 2 connectors, some with checkpoints + %d scenes of three pin-attached connectors (six shapes with one pin each, every creation order, offsets, buffer 0|2) '
+                      'replayed through the object-level harness; non-trivial = nudging changed a route with a bend' % npin)
     ev.sample(recs[0])
     ev.assumptions = ['"channel wide enough" is decided for axis-parallel rectangle obstacles and requires room for k+1 spacings (conservative)', 'displayed routes on a 2^-10 lattice, tolerance 3 units']
     rc = vd.finish()
